@@ -34,14 +34,9 @@ def own_index(f, t):
 
 
 def upgrade_loop_index(f, t):
-    """the 0..=u16::MAX loop variable of the per-index upgrade"""
-    t0 = strip(t)
-    for s in walk(t0):
-        if s[0] == 'call' and s[1].endswith('RangeInclusive::<Idx>::new'):
-            a = [strip(x) for x in s[2]]
-            if len(a) == 2 and a[0][0] == 'const' and a[0][2] == 0 and a[1][0] == 'const' and a[1][2] == 65535:
-                return True
-    return False
+    """the variable of the per-index upgrade loop, which visits every u16 once"""
+    from rules import every_u16
+    return every_u16(f, t)
 
 
 def r_index_key(ctx):
